@@ -576,11 +576,22 @@ func (b *binder) mapSide(m ssa.Value, keys bool, d int) string {
 						continue
 					}
 				}
+				v := mu.Value
 				if keys {
-					as = append(as, b.bindD(mu.Key, d+1))
-				} else {
-					as = append(as, b.bindD(mu.Value, d+1))
+					v = mu.Key
 				}
+				e := b.bindD(v, d+1)
+				// an `add(key, value)` method of a named map type: what its callers pass
+				if fn != m.Parent() && strings.Contains(e, "param:") && d < 12 {
+					within := map[*ssa.Function]bool{}
+					for _, ce := range b.c.P.Callers(fn) {
+						within[ce.Caller] = true
+					}
+					if e2 := b.bindInContext(fn, v, within, 2); e2 != "" {
+						e = e2
+					}
+				}
+				as = append(as, e)
 			}
 		}
 	}
@@ -617,6 +628,29 @@ func (b *binder) fieldRef(base ssa.Value, field int, d int) string {
 		}
 		if len(as) > 0 {
 			return alts(as)
+		}
+	}
+	// the struct a helper of the module handed back (its argument itself, or a copy it made and adjusted): the field
+	// of what each of its returns hands back, with the helper's parameters standing for the call's arguments
+	if call, ok := base.(*ssa.Call); ok && !call.Call.IsInvoke() && b.inlineD < 3 && d < 16 {
+		if h := call.Call.StaticCallee(); h != nil && b.c.P.isModuleFn(h) && len(h.Blocks) > 0 && len(h.Params) == len(call.Call.Args) && h.Signature.Results().Len() == 1 && !isProtoPkg(fnPkgPath(h)) {
+			if _, isPtr := h.Signature.Results().At(0).Type().Underlying().(*types.Pointer); isPtr {
+				var args []string
+				for _, a := range call.Call.Args {
+					args = append(args, b.bindD(a, d+1))
+				}
+				sub := b.withArgs(h, args)
+				sub.useSite = nil
+				var as []string
+				for _, hb := range h.Blocks {
+					if ret, isRet := hb.Instrs[len(hb.Instrs)-1].(*ssa.Return); isRet && len(ret.Results) == 1 {
+						as = append(as, sub.fieldRef(ret.Results[0], field, d+1))
+					}
+				}
+				if len(as) > 0 {
+					return alts(as)
+				}
+			}
 		}
 	}
 	if a, ok := base.(*ssa.Alloc); ok {
@@ -834,6 +868,11 @@ func (b *binder) bindCall(x *ssa.Call, d int) string {
 	}
 	if s, ok := b.inlineSelector(cal, as, -1, d); ok {
 		return s
+	}
+	// a helper that hands back the object it was given, or a copy of it (adjusted in some field): as a source of
+	// data it is that object (which field was adjusted is what fieldRef reads through the helper)
+	if len(as) == 1 && sameObjectOrCopy(cal) {
+		return as[0]
 	}
 	// a local closure over the function's column objects that is told by a constant which column to read
 	// (`runsOn := func(day int) bool { return cols[day].Read() == "1" }; runsOn(3)`): its one result with the
@@ -1114,6 +1153,19 @@ func selectorValue(v ssa.Value, fn *ssa.Function, d int) bool {
 		return selectorValue(x.X, fn, d+1)
 	case *ssa.ChangeType:
 		return selectorValue(x.X, fn, d+1)
+	case *ssa.Alloc:
+		// a by-value parameter (receiver) spilled to a variable: its one store is the parameter
+		vals := cellStores(x)
+		if len(vals) != 1 {
+			return false
+		}
+		_, isPrm := vals[0].(*ssa.Parameter)
+		return isPrm
+	case *ssa.BinOp:
+		// two selected strings put together (`id.station + id.direction`)
+		if bt, ok := x.Type().Underlying().(*types.Basic); ok && bt.Info()&types.IsString != 0 && x.Op == token.ADD {
+			return selectorValue(x.X, fn, d+1) && selectorValue(x.Y, fn, d+1)
+		}
 	}
 	return false
 }
@@ -1133,6 +1185,14 @@ func mentionsParam(v ssa.Value, d int) bool {
 		}
 	case *ssa.UnOp:
 		return mentionsParam(x.X, d+1)
+	case *ssa.BinOp:
+		return mentionsParam(x.X, d+1) || mentionsParam(x.Y, d+1)
+	case *ssa.Alloc:
+		for _, sv := range cellStores(x) {
+			if _, isPrm := sv.(*ssa.Parameter); isPrm {
+				return true
+			}
+		}
 	case *ssa.FieldAddr:
 		return mentionsParam(x.X, d+1)
 	case *ssa.Field:
@@ -1666,4 +1726,44 @@ func unexportedModuleStruct(t types.Type) bool {
 	}
 	_, isSt := n.Underlying().(*types.Struct)
 	return isSt && !n.Obj().Exported()
+}
+
+// sameObjectOrCopy: f(p *T) *T, loop-free, every return of which hands back p itself or the address of a local
+// variable that was initialised as a copy of *p.
+func sameObjectOrCopy(f *ssa.Function) bool {
+	if f == nil || len(f.Blocks) == 0 || len(f.Params) != 1 || f.Signature.Results().Len() != 1 || len(naturalLoops(f)) > 0 {
+		return false
+	}
+	prm := f.Params[0]
+	if _, isPtr := prm.Type().Underlying().(*types.Pointer); !isPtr || !types.Identical(prm.Type(), f.Signature.Results().At(0).Type()) {
+		return false
+	}
+	n := 0
+	for _, blk := range f.Blocks {
+		ret, ok := blk.Instrs[len(blk.Instrs)-1].(*ssa.Return)
+		if !ok {
+			continue
+		}
+		n++
+		rv := ret.Results[0]
+		if rv == ssa.Value(prm) {
+			continue
+		}
+		al, isAl := rv.(*ssa.Alloc)
+		if !isAl {
+			return false
+		}
+		copied := false
+		for _, sv := range cellStores(al) {
+			if ld, isLd := sv.(*ssa.UnOp); isLd && ld.Op == token.MUL && ld.X == ssa.Value(prm) {
+				copied = true
+			} else {
+				return false
+			}
+		}
+		if !copied {
+			return false
+		}
+	}
+	return n > 0
 }
